@@ -2,6 +2,7 @@
 # eval_mutant.sh <MUTANT_ID> [PROPS...] : apply to /repo, run the quick checks of the properties, undo
 id=$1; shift; props=${@:-${id%_*}}; m=/tmp/mut/out/$id; [ -d /tmp/mut/out2/$id ] && m=/tmp/mut/out2/$id
 [ -d /tmp/mut/out3/$id ] && m=/tmp/mut/out3/$id
+[ -d /tmp/mut/out5/$id ] && m=/tmp/mut/out5/$id
 [ -d /verif/seeded/$id ] && m=/verif/seeded/$id
 cd /repo && git status --short | grep -q . && { echo "/repo not clean"; exit 2; }
 git apply $m/patch.diff || { echo "$id PATCH-DOES-NOT-APPLY"; exit 2; }
